@@ -44,8 +44,7 @@ def minimal(i):
     return i.to_bytes(n, "big")
 
 
-def c17_1(ctx):
-    R = "C17.1"
+def c17_1(ctx, R="C17.1"):
     fb = ctx.fb
     c = fb.consts.get(TH + "PRECOMPUTED_HASHES")
     if not c or "value" not in c:
